@@ -4,6 +4,7 @@ import importlib
 _MODULES = [
     "c01_chunking",
     "c02_pipeline",
+    "c07_hostile",
     "c09_body_stream",
     "c10_limits",
     "c18_locals",
